@@ -4,6 +4,7 @@ import Hive.Proofs.C12aHeapSpec
 import Hive.Proofs.C12aQueue
 import Hive.Proofs.C12aRing
 import Hive.Proofs.C12aStack
+import Hive.Proofs.C12aCb
 /-!
 # C12 (part A) — the remaining containers are equivalent to their abstract models
 
@@ -88,6 +89,82 @@ example : (Shrink.run (Shrink.shouldShrink ⟨0, 1, 2⟩) Shrink.init
     [.set 1 10, .set 2 20, .set 3 30, .del 1, .del 2, .get 3, .size, .pop 0, .pop 0]).2
     = [.bool true, .bool true, .bool true, .bool true, .bool true, .val (some 30), .nat 1,
        .popped (some (3, 30)), .popped none] := by decide
+
+/-! ### ShrinkingMap with several callers: callbacks run inside the critical section
+
+`Delete(key, condition)`, `Compute`, `GetOrCreate` take the write lock first and call the function
+they were given while holding it (skeleton obligations `C12_skeleton_ShrinkingMap_Delete/…` in
+`Hive/Props/C12aSkel.lean`).  `Cb.sys false` is that protocol for any number of callers. -/
+
+/-- **Delete-with-condition (and every other operation) is one atomic step of the plain map**, for
+any number of concurrent callers, any operations and every schedule: in every reachable configuration
+the log of completed critical sections replays on the atomic specification `Cb.spec` — whose delete
+condition is evaluated *on the state in which the removal takes effect* — with exactly the recorded
+answers and ends in the current map; every answer a caller holds is in that log; and a verdict
+computed by a condition is still the verdict on the current map when the removal is carried out. -/
+theorem C12_shrink_callbacks_atomic (m0 : AL Nat) (ops : List Cb.LOp) (c : Hive.Conc.Cfg Cb.Sh Cb.Pc)
+    (hr : Hive.Conc.Reach (Cb.sys false) (Cb.start m0 ops) c) :
+    Cb.replay m0 c.1.log = some c.1.m ∧
+    (∀ t ∈ c.2, ∀ o out, t = .done o out → (o, out) ∈ c.1.log) ∧
+    (∀ t ∈ c.2, ∀ o b, t = .eff o b → b = Cb.cbVal c.1.m o) := by
+  have h := Cb.inv_reach m0 ops c hr
+  exact ⟨h.log, fun t ht o out e => h.answered t ht o out (Or.inr e), h.cb⟩
+
+/-- **No deadlock**: a reachable configuration in which no caller can move is one in which every
+caller has finished. -/
+theorem C12_shrink_callbacks_no_deadlock (m0 : AL Nat) (ops : List Cb.LOp) (c : Hive.Conc.Cfg Cb.Sh Cb.Pc)
+    (hr : Hive.Conc.Reach (Cb.sys false) (Cb.start m0 ops) c) (hs : Hive.Conc.Stuck (Cb.sys false) c) :
+    ∀ t ∈ c.2, ∃ o out, t = .done o out := by
+  have h := Cb.inv_reach m0 ops c hr
+  -- somebody inside the critical section could always move
+  have hnone : ∀ u ∈ c.2, Cb.inCrit u = false := by
+    intro u hu
+    have hst := hs u hu
+    cases u with
+    | inCb o => simp [Cb.sys] at hst
+    | eff o b => exact absurd hst (List.cons_ne_nil _ _)
+    | rel o out => simp [Cb.sys] at hst
+    | _ => rfl
+  have hcount : c.2.countP Cb.inCrit = 0 := List.countP_eq_zero.mpr (by intro u hu; simp [hnone u hu])
+  have hfree : c.1.locked = false := by
+    have hc := h.count; rw [hcount] at hc
+    cases hl : c.1.locked with
+    | false => rfl
+    | true => rw [hl] at hc; simp at hc
+  intro t ht
+  have hst := hs t ht
+  cases t with
+  | done o out => exact ⟨o, out, rfl⟩
+  | want o => simp [Cb.sys, hfree] at hst
+  | pre o b => exact absurd rfl (h.nopre _ ht o b)
+  | inCb o => simp [Cb.sys] at hst
+  | eff o b => exact absurd hst (List.cons_ne_nil _ _)
+  | rel o out => simp [Cb.sys] at hst
+
+/-- The seeded change C12-r2-1 (condition evaluated before the lock is taken, `Cb.sys true`) is not a
+refinement: a schedule of two callers — `Delete(1, value == 5)` and `Compute(1, +1)` — ends with a log
+no atomic map can produce (the condition saw 5, the entry removed held 6). -/
+theorem C12_shrink_early_condition_witness :
+    ∃ c, Hive.Conc.Reach (Cb.sys true) (Cb.start [(1, 5)] [.delIfEq 1 5, .compute 1 1]) c ∧
+      Cb.replay [(1, 5)] c.1.log = none := by
+  refine ⟨Hive.Conc.runSched (Cb.sys true) (Cb.start [(1, 5)] [.delIfEq 1 5, .compute 1 1])
+    [(0, 0), (1, 0), (1, 0), (1, 0), (1, 0), (0, 0), (0, 0), (0, 0)], Hive.Conc.runSched_reach _ _ _, ?_⟩
+  decide
+
+/-- The history check the driver answers the `cb` lines with only accepts linearizable histories:
+an accepted history has an order of all its operations that respects real time (no operation is
+placed before one that returned before it was invoked) and on which the atomic specification gives
+the recorded answers. -/
+theorem C12_shrink_history_check_sound (m : AL Nat) (h : List Cb.Ev) (hk : Cb.linOk m h = true) :
+    Cb.Linearizable m h :=
+  Cb.linOk_sound m h hk
+
+/-- Non-vacuity: the history the unchanged code produces for the schedule of C12-r2-1 (the writer is
+blocked until `Delete` is over) is accepted, the one of the broken variant is rejected. -/
+example :
+    Cb.linOk [(1, 5)] [⟨.delIfEq 1 5, 1, 3, .bool true⟩, ⟨.compute 1 1, 2, 4, .nat 1⟩, ⟨.snap, 5, 6, .pairs [(1, 1)]⟩] = true ∧
+    Cb.linOk [(1, 5)] [⟨.delIfEq 1 5, 1, 4, .bool true⟩, ⟨.compute 1 1, 2, 3, .nat 6⟩, ⟨.snap, 5, 6, .pairs []⟩] = false := by
+  constructor <;> decide
 
 /-! ## RandomMap — a map whose random picks are members -/
 
